@@ -124,3 +124,7 @@ def run(ctx, rep):
     from . import c12 as _c12
     shared.include(ctx, rep, _c12.run, {'R12.2'}, floors=True, why='interval-defined times exist and follow their base time')
 
+    # an entry "exists that day" exactly when the cosine of its hour angle lies in [-1, 1]: a wider guard lets acos return NaN,
+    # which is reported as a conventional 00:00:00 far from Dhuhr (R6.1 decides the guard)
+    from . import c06 as _c06
+    shared.include(ctx, rep, _c06.run, {'R6.1'}, why='a conventional time is reported only when its hour angle exists')
